@@ -157,6 +157,9 @@ fn oracle_combo<C: RangeCombo>(rng: &mut Rng, w: u32, s: u32, bps: &[(u32, Vec<u
             None
         };
         let n = match rng.next() % 8 { 0 => 0, 1 => 1, 2 => 60, _ => rng.next() % 40 } as usize;
+        // some messages end with a directed pair of symbols: new range on the threshold, then
+        // an upper end just above a word boundary (the configuration of defect D3)
+        let hunt = n >= 2 && rng.chance(1, 3);
         let mut msg: Vec<(u32, u32, Vec<u128>, usize)> = Vec::new();
         let mut snaps: Vec<(usize, RangeCoderState<C::W, C::S>, bool)> = Vec::new();
         let mut bound = SizeBound::new();
@@ -244,7 +247,13 @@ fn oracle_combo<C: RangeCombo>(rng: &mut Rng, w: u32, s: u32, bps: &[(u32, Vec<u
             }
             // --- encode the next symbol on both
             let (b, p) = fixed_bp.unwrap_or_else(|| pick_bp(rng, bps));
-            let (cdf, sym) = steer::<C>(rng, &coder, w, s, p, &pool, b);
+            let (b, p, mode) = if hunt && step + 2 >= n {
+                let (bb, ps) = bps.last().unwrap();
+                (*bb, *ps.last().unwrap(), Some(if step + 2 == n { 4 } else { 3 }))
+            } else {
+                (b, p, None)
+            };
+            let (cdf, sym) = steer_mode::<C>(rng, &coder, w, s, p, &pool, b, mode);
             desc.push_str(&format!(" | enc {:x} {:x} {:x} {:x}", b, p, cdf[sym], cdf[sym + 1] - cdf[sym]));
             let o1 = guarded(|| C::enc_sym(&mut coder, b, p, &cdf, sym).unwrap());
             let o2 = guarded(|| C::enc_sym(&mut twin, b, p, &cdf, sym).unwrap());
@@ -282,6 +291,7 @@ fn oracle_combo<C: RangeCombo>(rng: &mut Rng, w: u32, s: u32, bps: &[(u32, Vec<u
             continue;
         }
         let plain = format!("{}{}", head, msg_ops(&msg));
+        let plain_new = format!("range {:x} {:x} | new{}", w, s, msg_ops(&msg));
         rep.sample("C02", || format!("{} | export | intodec{} | exhausted", plain, msg_decs(&msg)));
         rep.sample("C08", || desc.clone());
         let payload: Vec<u128> = sealed[prefix.len()..].to_vec();
@@ -375,7 +385,7 @@ fn oracle_combo<C: RangeCombo>(rng: &mut Rng, w: u32, s: u32, bps: &[(u32, Vec<u
                 data.extend(suffix.iter().copied());
                 let mut d: Dec<C> = RangeDecoder::from_compressed(words::<C::W>(&data)).unwrap();
                 if let Err(t) = decode_expect::<C, _>(&mut d, &msg) {
-                    rep.fail("C11", format!("{} | export => {} ; suffix {} ; decoding sealed++suffix with{} => {}", plain, show_list(payload.clone()), show_list(suffix.clone()), msg_decs(&msg), t));
+                    rep.fail("C11", format!("{} | export => {} ; suffix {} ; decoding sealed++suffix with{} => {}", plain_new, show_list(payload.clone()), show_list(suffix.clone()), msg_decs(&msg), t));
                 }
                 rep.sample("C11", || format!("{} | export ; suffix {}", plain, show_list(suffix.clone())));
                 // back-to-back messages: a second sealed message right after the first
@@ -386,7 +396,7 @@ fn oracle_combo<C: RangeCombo>(rng: &mut Rng, w: u32, s: u32, bps: &[(u32, Vec<u
                     data.extend(second.iter().copied());
                     let mut d: Dec<C> = RangeDecoder::from_compressed(words::<C::W>(&data)).unwrap();
                     if let Err(t) = decode_expect::<C, _>(&mut d, &msg) {
-                        rep.fail("C11", format!("{} | export => {} ; suffix {} (a second sealed message) => {}", plain, show_list(payload.clone()), show_list(second), t));
+                        rep.fail("C11", format!("{} | export => {} ; suffix {} (a second sealed message) => {}", plain_new, show_list(payload.clone()), show_list(second), t));
                     }
                     let _ = enc2;
                 }
